@@ -159,7 +159,7 @@ func TestEnumerated(t *testing.T) {
 
 func TestStateMachine(t *testing.T) {
 	cat := hx.Catalogue()
-	ev.Check(t, "TestStateMachine", ev.PickN(400, 40000), func(t *rapid.T) {
+	ev.Check(t, "TestStateMachine", ev.PickN(400, 100000), func(t *rapid.T) {
 		h, err := newHistory(rapid.SampledFrom(hx.Suites9()).Draw(t, "suite"), rapid.Uint64().Draw(t, "seed"))
 		if err != nil {
 			t.Fatalf("harness: %v", err)
